@@ -410,3 +410,54 @@ func verifC16_write_vs_close() {
 	c.CloseNow()
 	vObserve("c16wvc", len(frames))
 }
+
+// C16.closeread: CloseRead is in force and the peer sends a data message: the library sends its policy-violation Close
+// frame (1008). The peer answers with a Close frame of its own (echoing 1008, or 1000, or without status) - early or
+// after ours. Exactly one Close frame goes out.
+func verifC16_closeread() {
+	client := vParam("client", 1) == 1
+	vInstallRand()
+	mk := func(f vFrame) vFrame {
+		f.masked = !client
+		if f.masked {
+			copy(f.key[:], vBytes("key", 4))
+		}
+		return f
+	}
+	t := vNewTransport(nil)
+	t.endMode = vEndBlock
+	c := vNewConn(t, client, nil, 32, 64)
+	ctx := c.CloseRead(vBG)
+	vGhostSettle()
+	var answer vFrame
+	switch vChoose("answer", 3) {
+	case 0:
+		answer = vFrame{fin: true, opcode: 8, payload: []byte{0x03, 0xf0}}
+	case 1:
+		answer = vFrame{fin: true, opcode: 8, payload: []byte{0x03, 0xe8}}
+	default:
+		answer = vFrame{fin: true, opcode: 8}
+	}
+	early := vChoose("early", 2) == 1
+	msg := vEncodeFrame(mk(vFrame{fin: true, opcode: 1, payload: vBytes("m", 1)}))
+	if early {
+		t.vFeed(append(msg, vEncodeFrame(mk(answer))...))
+	} else {
+		t.vFeed(msg)
+		vGhostSettle()
+		t.vFeed(vEncodeFrame(mk(answer)))
+	}
+	select {
+	case <-ctx.Done():
+	case <-time.After(30 * time.Second):
+		vAssert(false, "C09.closeread.cancelled-at-all")
+	}
+	vGhostSettle()
+	vReach("C16.closeread.done")
+	_, nClose, after, ok := vCloseFrames(t.out)
+	vAssert(ok, "C16.closeread.wellformed")
+	vAssert(nClose == 1, "C16.closeread.exactly-one-close-frame")
+	vAssert(after == 0, "C16.closeread.nothing-after-close")
+	c.CloseNow()
+	vObserve("c16closeread", nClose)
+}
